@@ -102,9 +102,8 @@ theorem splitPathVersion_compute (p pre n : Bytes) (hg : isPrefixOfB (B "gopkg.i
     | cons a t => simp
   have h5 : n.reverse.contains 46 = n.contains 46 := by
     rw [Bool.eq_iff_iff]; simp
-  rw [h2, h3, h5, ← hrev]
+  rw [h2, h3, h5]
   simp only [h4, decide_false, Bool.or_false]
-  simp [hp]
 
 /-- if SplitPathVersion (outside gopkg.in) reports !ok, the path ends in a malformed "/vN" element -/
 theorem splitPathVersion_not_ok_bad (p : Bytes) (hg : isPrefixOfB (B "gopkg.in/") p = false)
@@ -139,7 +138,7 @@ theorem splitPathVersion_not_ok_bad (p : Bytes) (hg : isPrefixOfB (B "gopkg.in/"
             have : tl.reverse ≠ [] := by intro h0; apply hne; simpa using h0
             cases ht : tl.reverse with
             | nil => exact this ht
-            | cons a t => rw [ht] at hc; simp at hc; omega
+            | cons a t => rw [ht] at hc; simp at hc
           · right; left
             cases ht : tl.reverse with
             | nil => rw [ht] at hc; simp at hc
@@ -197,7 +196,8 @@ theorem splitGopkgIn_compute (p pre n sfx : Bytes) (hg : isPrefixOfB (B "gopkg.i
       have hu : hasSuffixB p (B "-unstable") = false := by
         have : p = (pre ++ 46 :: 118 :: ds.reverse) ++ [d] := by rw [hp, hn']; simp
         rw [this]; exact hasSuffixB_last_digit _ d (hn d hdn)
-      simp [hu, hp]
+      simp only [hu, Bool.false_eq_true, if_false]
+      simp [hp]
     · have e : p = (pre ++ 46 :: 118 :: n) ++ B "-unstable" := by rw [hp]; simp
       have hu : hasSuffixB p (B "-unstable") = true := by rw [e]; exact hasSuffixB_append _ _
       have hlen : (B "-unstable").reverse.length = 9 := by decide +kernel
@@ -234,7 +234,6 @@ theorem splitGopkgIn_compute (p pre n sfx : Bytes) (hg : isPrefixOfB (B "gopkg.i
       | cons a' t' => simp [bne]
   rw [h2, h3]
   simp only [h4, decide_false, Bool.false_or]
-  simp [hp]
 
 theorem num_digits {n : Bytes} (h : PathSpec.Num n) : ∀ c ∈ n, isDigit c = true :=
   fun c hc => (isDigit_iff c).mpr (h.2.1 c hc)
@@ -248,11 +247,12 @@ theorem splitGopkgIn_ok_iff (p : Bytes) (hg : isPrefixOfB (B "gopkg.in/") p = tr
     obtain ⟨happ, _, n, hnum, hmaj⟩ := splitGopkgIn_ok p _ _ hfull
     refine ⟨(splitGopkgIn p).1, n, hnum, ?_⟩
     rcases hmaj with hm | hm
-    · left; rw [← happ, hm]
+    · left; exact happ.symm.trans (by rw [hm])
     · right
-      refine ⟨by rw [← happ, hm], ?_⟩
+      have hp' : p = (splitGopkgIn p).1 ++ 46 :: 118 :: (n ++ B "-unstable") := happ.symm.trans (by rw [hm])
+      refine ⟨hp', ?_⟩
       intro h48
-      have hc := splitGopkgIn_compute p (splitGopkgIn p).1 n (B "-unstable") hg (by rw [← happ, hm]) hnum.1
+      have hc := splitGopkgIn_compute p (splitGopkgIn p).1 n (B "-unstable") hg hp' hnum.1
         (num_digits hnum) (Or.inr rfl)
       have hcond : (n.head? == some 48 && !(n == [48] && B "-unstable" == [])) = true := by
         rw [h48, B_unstable]; decide
